@@ -73,7 +73,7 @@ pub fn resolve_steps(case: &Case) -> Vec<Step> {
     out
 }
 
-fn run_case(case: &Case) -> Result<(bool, Vec<&'static str>), Failure> {
+pub fn run_case(case: &Case) -> Result<(bool, Vec<&'static str>), Failure> {
     let steps = resolve_steps(case);
     let has_ext = steps.iter().any(|s| matches!(s, Step::AddExternal(_)));
     let m = prog::model(&case.program, 0, &[], Some(&steps));
